@@ -30,6 +30,11 @@ CLAIMS = {
    text="Every literal is interpreted alone and its canonical value (kind and bits) is compared with the number the spelling denotes; out-of-range typed literals may only clamp to the kind bound or fail, a zero denominator must fail, and a valid in-range spelling must not be an error. Held on the spellings generated; digits are random inside each cell.",
    note="Trusts Rust's float parser as the nearest-value oracle and the harness generator's reading of specification section 4.2 (underscores only inside float digit sequences; signed kinds via annotation).",
    ref="6/C13"),
+ "C15": dict(
+   technique="runtime monitoring: exact rational progression model compared term by term with interpreted ranges over a kind x form x scenario sweep with random magnitudes; chk and rel flavours",
+   text="For each cell the API-bound operands a, s, b of one kind are interpreted through a..b, a..=b, a..s..b, a..s..=b; the result must be exactly the progression (count, every term, kind), unbuildable ranges must be an error or empty, and x[a..=b] must select what the range value lists.",
+   note="Trusts the harness' exact rational arithmetic; inexact decimal float steps are judged within 1 ulp and without a count; orientation of the result vector is not judged.",
+   ref="6/C15"),
 }
 NOT_YET = "not claimed yet: the monitor for this property is still being built in this session (see DESIGN.md section 6 for the planned check)"
 
